@@ -31,6 +31,7 @@ Numeric(o, allow, general) ==
          THEN "general_path_two_theta_is_that_of_a_beam_lowered_along_gravity"
     ELSE IF o.e_tt > Tol + allow THEN "two_theta_differs_from_construction"
     ELSE IF o.phi_checked /\ o.e_phi > Tol THEN "phi_differs_from_construction"
+    ELSE IF ~o.inputs_kept THEN "operand_modified_in_place"
     ELSE "ok"
 
 ReflJudge(o, outcomes) ==
@@ -60,20 +61,41 @@ JudgeRat(e) ==
                ReflJudge(e.o, {Refl(s)[1]}),
                CmpJudge(e.o, ExpectedCmp(s)))
 
+(* e.tclass: dispatch class of this element's own incident beam (decides the allowance and *)
+(* the expected order); e.bclass: class of the whole call = BatchClass of its pixels        *)
+(* (decides the path taken and the refusal); e.form: the operand form; e.extra: allowance   *)
+(* for operands re-expressed in another unit (derived in the driver).                       *)
 JudgePhys(e) ==
     LET s == [g |-> e.glat, b1 |-> e.b1lat, b2 |-> e.det, q |-> IF e.lam_pos THEN <<1, 1>> ELSE <<0, 1>>]
-        allow == IF e.tclass \in {"sub", "band"} THEN e.allow ELSE 0
-    IN  IF ~ValidGeometry(s) \/ ~Perpendicular(s) THEN "invalid_setup"
+        allow == (IF e.tclass \in {"sub", "band"} THEN e.allow ELSE 0) + e.extra
+    IN  IF ~ValidGeometry(s) \/ ~Perpendicular(s) \/ ~ValidForm(e.form) THEN "invalid_setup"
+        ELSE IF e.bclass # BatchClass({e.tclass} \cup (IF e.form.ib = "per_pixel_mixed" THEN {e.other_class} ELSE {}))
+             THEN "invalid_setup"
         ELSE IF ~e.lam_pos /\ e.o.returned /\ e.o.e_free > Tol + allow THEN "no_gravity_free_limit_at_zero_wavelength"
-        ELSE First(Numeric(e.o, allow, "general" \in PathOf(e.tclass)),
-                   ReflJudge(e.o, ReflOutcomes(e.tclass)),
+        ELSE First(Numeric(e.o, allow, "general" \in PathOf(e.bclass)),
+                   ReflJudge(e.o, ReflOutcomes(e.bclass)),
                    IF e.tclass = "zero" THEN CmpJudge(e.o, ExpectedCmp(s)) ELSE "ok")
 
 (* |result(tilt just above) - result(tilt just below)| <= tilt_above + 2 Tol:            *)
 (* rotating b1 by an angle t changes the angle to any fixed vector by at most t           *)
 JudgeCont(e) == IF e.d > e.tau_above + 2 * Tol THEN "discontinuous_at_the_dispatch_threshold" ELSE "ok"
 
+(* beam_aligned_unit_vectors against the frame of the specification: for a lattice setup   *)
+(* TLC recomputes the integer numerators (EyN, ZpN, ExN) the harness normalised; e_frame is *)
+(* the largest component error in units of 1e-16, ortho the same for the six inner products *)
+FrameTol == 100    \* 1e-14: normalisations and one projection, a few eps each
+JudgeFrame(e) ==
+    LET s == [g |-> e.g, b1 |-> e.b1, b2 |-> <<0, 0, 1>>, q |-> <<0, 1>>] IN
+    IF e.lattice /\ (Cross(e.g, e.b1) = Zero3 \/ e.want # [ey |-> EyN(s), zp |-> ZpN(s), ex |-> ExN(s)])
+    THEN "harness_reference_differs_from_spec"
+    ELSE IF ~e.returned THEN "beam_aligned_unit_vectors_raised"
+    ELSE IF ~e.unit_ok THEN "frame_unit_or_dtype"
+    ELSE IF e.e_frame > FrameTol THEN "frame_differs_from_documented_basis"
+    ELSE IF e.ortho > FrameTol THEN "frame_not_orthonormal"
+    ELSE "ok"
+
 Judge(e) == CASE e.ev = "rat"  -> JudgeRat(e)
+              [] e.ev = "frame" -> JudgeFrame(e)
               [] e.ev = "phys" -> JudgePhys(e)
               [] e.ev = "cont" -> JudgeCont(e)
               [] OTHER -> "unknown_event"
